@@ -52,6 +52,12 @@ class ResponseModel:
                 a = facts.adts.get(ty.lstrip("&").replace("mut ", ""))
                 if a is not None and a["kind"] == "Struct" and a["id"] != RESP and any(needle in x["ty"] for x in a["variants"][0]["fields"]):
                     return True
+            # a parameter of generic type (`headers: I where I: IntoIterator<Item = &Header>`): what it is instantiated with
+            if any(re.match(r"^&?(mut )?[A-Z]\w*$", l["ty"]) for l in g.locals[1:1 + g.argc]):
+                for i_ in facts.instances_of(g.id):
+                    m_ = re.search(r"::<(.*)>$", i_.get("name") or "")
+                    if m_ and needle in m_.group(1):
+                        return True
             return False
         hw = [k for k, g in facts.local_fns.items() if g.file == self.file and g.rec["def_kind"] in ("Fn", "AssocFn") and "{closure" not in k
               and g.rec.get("impl_self_adt") != RESP and g.rec.get("impl_trait") is None
@@ -161,6 +167,43 @@ class ResponseModel:
                     out["buffer_args"] = e[8] or e[3]
             elif e[1] == "drop" and "chunked_transfer::Encoder<" in (e[2] or ""):
                 out["enc_drops"].append(i)
+        # a header that was built counts only if it is handed to the head writer: it occurs in what the head writer is given (a list or
+        # iterator expression built from it), or it was appended to a list the head writer is given a view of
+        if out["head"] is not None:
+            h = ev[out["head"]]
+            hargs = list(h[3]) + list(h[8] or [])
+            st = p.state
+            def keys_of(v, depth=0, acc=None):
+                acc = set() if acc is None else acc
+                if depth > 6:
+                    return acc
+                for x in absint.walk_terms(v):
+                    if isinstance(x, tuple) and len(x) == 2 and x[0] == "ref" and isinstance(x[1], tuple):
+                        k = x[1]
+                        if k not in acc:
+                            acc.add(k)
+                            base = tuple(y for y in k if y != "*")
+                            if base != k and base not in acc:
+                                acc.add(base)
+                                try:
+                                    keys_of(st.read_key(base), depth + 1, acc)
+                                except Exception:
+                                    pass
+                return acc
+            keys = set()
+            for a in h[3]:
+                keys |= keys_of(a)
+            appends = []
+            for j, e in enumerate(ev[:out["head"]]):
+                if e[1] == "call" and re.search(r"(Vec::<T(, A)?>|VecDeque::<T(, A)?>)::(push|push_back|push_front|insert|extend\w*|append)$", e[2]) and e[3] and e[3][0] and e[3][0][0] == "ref":
+                    appends.append((j, e[3][0][1], list(e[3][1:]) + list((e[8] or [])[1:])))
+            sent, unsent = [], []
+            for (i, name, val) in out["headers"]:
+                ct = ev[i][4]
+                direct = i < out["head"] and any(absint.mentions_call(a, ct) for a in hargs)
+                via = any(j > i and k in keys and any(absint.mentions_call(x, ct) for x in vals) for j, k, vals in appends)
+                (sent if (direct or via) else unsent).append((i, name, val))
+            out["headers"], out["unsent"] = sent, unsent
         return out
 
 
